@@ -445,6 +445,46 @@ fn check_arch(db: &LayoutDb, x: &Arch, idx: usize, seed: u64, sink: &Sink) {
 	}
 	if intact && x.arch == x.writer && x.version == [2, 0, 0] {
 		// --- what the writer produced ---
+		// a Gecko list that is present but empty (every Message Splitter block declares an actual size of 0): the blob
+		// entry is written all the same and the reader gets the same (empty) list back
+		if x.game.gecko {
+			let mut z = built.bytes.clone();
+			let mut blocks = 0;
+			for (b, off) in built.ev_bufs.iter().zip(built.ev_offs.iter()) {
+				if b.len() == 517 && b[0] == 0x10 && b[515] == 0x3D {
+					z[off + 513] = 0;
+					z[off + 514] = 0;
+					blocks += 1;
+				}
+			}
+			if let (true, Outcome::Ok(gz), Outcome::Ok(gz2)) = (blocks > 0, real::read_slp(&z, false, false), real::read_slp(&z, false, false)) {
+				if gz.gecko_codes.as_ref().map_or(false, |c| c.actual_size == 0) {
+					let want = gz2.gecko_codes;
+					match real::write_slpp(gz, comp) {
+						Outcome::Ok(az) => {
+							match tarx::walk(&az) {
+								Ok(ez) => {
+									let nz: Vec<String> = ez.iter().map(|e| e.name.clone()).collect();
+									if nz != x.writer {
+										report("entry_order", "mismatch", format!("empty Gecko list: entries {:?}, model {:?}", nz, x.writer));
+									}
+								}
+								Err(e) => report("tar_structure", "mismatch", e),
+							}
+							match real::read_slpp(&az, false) {
+								Outcome::Ok(gb) => {
+									if gb.gecko_codes != want {
+										report("raw_entries", "mismatch", "empty Gecko list: the list read from the archive differs from the game's".into());
+									}
+								}
+								o2 => report("slpp_read", o2.kind(), o2.detail()),
+							}
+						}
+						o2 => report("slpp_write", o2.kind(), o2.detail()),
+					}
+				}
+			}
+		}
 		if arch.len() < 10 || &arch[..10] != b"peppi.json" {
 			report("signature", "mismatch", "the archive does not start with peppi.json".into());
 		}
